@@ -90,6 +90,8 @@ pub fn rebuild(case: &Value) -> (Cfg, Vec<Vec<u8>>, Option<Vec<u32>>) {
             .find(|f| f.name == name)
             .unwrap_or_else(|| panic!("unknown family {name}"));
         (cfg, fam.pats, None)
+    } else if let Some(name) = case["scale_case"].as_str() {
+        (cfg, crate::scale::case_patterns(name).unwrap_or_else(|| panic!("unknown scale case {name}")), None)
     } else if case.get("huge_family").is_some() {
         (cfg, families::huge_random_5byte(case["seed"].as_u64().unwrap_or(0)), None)
     } else {
